@@ -485,4 +485,42 @@ theorem eq_of_name_eq_of_nodup : ∀ (l : List SymFn), (l.map (·.fnName)).Nodup
     · exact ih hnd.2 f hf' g hg' hname
 
 
+theorem shadowGo_spec (called : List String) :
+    ∀ (args taken : List String), (∀ c ∈ called, c ∈ taken) →
+      (shadowGo called taken args).length = args.length ∧
+      (∀ x ∈ shadowGo called taken args, called.contains x = false) ∧
+      ((∀ a ∈ args, called.contains a = false) → shadowGo called taken args = args) := by
+  intro args
+  induction args with
+  | nil => intro taken _; simp [shadowGo]
+  | cons a as ih =>
+    intro taken hsub
+    by_cases hc : called.contains a = true
+    · have hfresh := freshName_not_taken taken (a ++ "_")
+      obtain ⟨h1, h2, _⟩ := ih (freshName taken (a ++ "_") :: taken) (fun c hcm => List.mem_cons_of_mem _ (hsub c hcm))
+      have hm : a ∈ called := by simpa using hc
+      refine ⟨by simp [shadowGo, hm, h1], ?_, ?_⟩
+      · intro x hx
+        simp only [shadowGo, hc, if_true, List.mem_cons] at hx
+        rcases hx with rfl | hx
+        · cases hcc : called.contains (freshName taken (a ++ "_")) with
+          | false => rfl
+          | true => exact absurd (hsub _ (by simpa using hcc)) hfresh
+        · exact h2 x hx
+      · intro hall
+        have := hall a (List.mem_cons_self ..)
+        rw [hc] at this; cases this
+    · have hc' : called.contains a = false := by simpa using hc
+      obtain ⟨h1, h2, h3⟩ := ih taken hsub
+      have hm : a ∉ called := by simpa using hc'
+      refine ⟨by simp [shadowGo, hm, h1], ?_, ?_⟩
+      · intro x hx
+        simp only [shadowGo, hc', Bool.false_eq_true, if_false, List.mem_cons] at hx
+        rcases hx with rfl | hx
+        · exact hc'
+        · exact h2 x hx
+      · intro hall
+        simp only [shadowGo, hc', Bool.false_eq_true, if_false]
+        rw [h3 (fun x hx => hall x (List.mem_cons_of_mem _ hx))]
+
 end Mxl.C17
